@@ -30,7 +30,7 @@ inline Bytes scrypt_words_to_bytes(const std::vector<uint32_t> &w) {
 }
 
 // RFC 7914 section 3: Salsa20/8 core, a 64-byte -> 64-byte function on 16 little-endian words, in place.
-inline void salsa20_8_core(uint32_t B[16]) {
+inline void scrypt_salsa20_8_core(uint32_t B[16]) {
     uint32_t x[16];
     for (int i = 0; i < 16; i++) x[i] = B[i];
     for (int round = 8; round > 0; round -= 2) {
@@ -55,10 +55,10 @@ inline void salsa20_8_core(uint32_t B[16]) {
     }
     for (int i = 0; i < 16; i++) B[i] += x[i];
 }
-inline Bytes salsa20_8(const Bytes &in) {
+inline Bytes scrypt_salsa20_8(const Bytes &in) {
     if (in.size() != 64) return Bytes();
     std::vector<uint32_t> w = scrypt_words_from_bytes(in);
-    salsa20_8_core(w.data());
+    scrypt_salsa20_8_core(w.data());
     return scrypt_words_to_bytes(w);
 }
 
@@ -69,7 +69,7 @@ inline void scrypt_blockmix_words(const uint32_t *in, uint32_t *out, size_t r) {
     for (int k = 0; k < 16; k++) X[k] = in[(2 * r - 1) * 16 + k];
     for (size_t i = 0; i < 2 * r; i++) {
         for (int k = 0; k < 16; k++) X[k] ^= in[i * 16 + k];
-        salsa20_8_core(X);
+        scrypt_salsa20_8_core(X);
         size_t dst = (i % 2 == 0) ? i / 2 : r + i / 2;   // even-numbered Y first, then the odd-numbered ones
         for (int k = 0; k < 16; k++) out[dst * 16 + k] = X[k];
     }
@@ -113,10 +113,11 @@ inline uint64_t scrypt_mem_bytes(uint64_t N, uint32_t r, uint32_t p) {
 // RFC 7914 section 6: scrypt(P, S, N, r, p, dkLen).
 //   B[0] || .. || B[p-1] = PBKDF2-HMAC-SHA256(P, S, 1, p * 128 * r);  B[i] = ROMix(r, B[i], N);
 //   DK = PBKDF2-HMAC-SHA256(P, B[0] || .. || B[p-1], 1, dkLen)
-// Parameter requirements of RFC 7914 section 2: N > 1 and a power of two (N < 2^(128*r/8) is implied for every N that
-// fits 64 bits once r >= 1... except r = 1 where N < 2^16 is required by the RFC; that bound is NOT enforced here because
-// neither libsodium nor OpenSSL's r=1 behaviour depends on it for N < 2^16 anyway), p <= (2^32-1)*32/(128*r), dkLen <= (2^32-1)*32.
-// Anything invalid or above REF_SCRYPT_MAX_BYTES returns an empty vector (also for dklen == 0); nothing aborts.
+// Parameter requirements of RFC 7914 section 2 that are enforced: N > 1 and a power of two, r >= 1, p >= 1,
+// p <= (2^32-1)*32/(128*r) (checked as r*p < 2^30, the form libsodium uses), dkLen <= (2^32-1)*32.
+// NOT enforced: the RFC's "N < 2^(128*r/8)" (only relevant for r <= 3 with N >= 2^(16r)); libsodium does not check it
+// either and the algorithm is well defined there (OpenSSL / hashlib do reject such N).
+// Anything invalid, or needing more than REF_SCRYPT_MAX_BYTES, returns an empty vector; nothing aborts.
 inline Bytes scrypt(const Bytes &pw, const Bytes &salt, uint64_t N, uint32_t r, uint32_t p, size_t dklen) {
     if (N < 2 || (N & (N - 1)) != 0 || r == 0 || p == 0) return Bytes();
     if ((uint64_t) r * p >= (1ull << 30)) return Bytes();                 // p <= (2^32-1)*32 / (128*r)
@@ -297,8 +298,8 @@ inline ScryptStr scrypt_parse_string(const std::string &s, bool strict_salt = tr
     };
     if (!uint_at(3, 1, r.N_log2) || !uint_at(4, 5, r.r) || !uint_at(9, 5, r.p)) return r;
     r.salt_chars = s.substr(14, 43);                                                // S4
-    for (char c : r.salt_chars) {
-        if (strict_salt ? scrypt_b64_value(c) < 0 : false) return r;
+    if (strict_salt) {
+        for (char c : r.salt_chars) if (scrypt_b64_value(c) < 0) return r;
     }
     if (s[57] != '$') return r;                                                     // S5
     if (!scrypt_b64_bytes_decode(s.substr(58, 43), 32, r.hash)) return r;           // S6
@@ -328,7 +329,7 @@ inline int selftest_scrypt() {
 
     // RFC 7914 section 8: Salsa20/8 core
     t.eqh("rfc7914 s8 salsa20/8",
-          salsa20_8(from_hex("7e879a214f3ec9867ca940e641718f26baee555b8c61c1b50df846116dcd3b1dee24f319df9b3d8514121e4b5ac5aa3276021d2909c74829edebc68db8b8c25e")),
+          scrypt_salsa20_8(from_hex("7e879a214f3ec9867ca940e641718f26baee555b8c61c1b50df846116dcd3b1dee24f319df9b3d8514121e4b5ac5aa3276021d2909c74829edebc68db8b8c25e")),
           "a41f859c6608cc993b81cacb020cef05044b2181a2fd337dfd7b1c6396682f29b4393168e3c9e6bcfe6bc5b7a06d96bae424cc102c91745c24ad673dc7618f81");
     // RFC 7914 section 9: scryptBlockMix, r = 1
     const char *b_in =
